@@ -669,4 +669,48 @@ def c16_k(ctx: Ctx):
     return no_glob_enumeration(ctx, "C16-k", ("signac.import_export",), "the archive lacks them and the imported jobs have incomplete file trees")
 
 
-RULES = [c16_a, c16_b, c16_c, c16_d, c16_e, c16_f, c16_g, c16_h, c16_i, c16_j, c16_k, c16_l, c16_m]
+@rule("C16-n")
+def c16_n(ctx: Ctx):
+    """An import with a schema never files a directory under a state point that its own state point file contradicts: the state point derived from the path
+    and the one read from the file are compared as values (`!=` / `==` on the two mappings themselves), and what is returned is what was compared."""
+    R = "C16-n"
+    q = "signac.import_export:_with_consistency_check.<locals>._check"
+    f = ctx.prog.funcs.get(q)
+    k = q + "|compared-as-values"
+    if f is None:
+        return [ctx.inc(R, None, None, "_with_consistency_check._check not found", construct=k)]
+    derived, fromfile = set(), set()
+    for n in body_nodes(f):
+        if isinstance(n, ast.Assign) and len(n.targets) == 1 and isinstance(n.targets[0], ast.Name) and isinstance(n.value, ast.Call) and isinstance(n.value.func, ast.Name):
+            if n.value.func.id == "schema_function":
+                derived.add(n.targets[0].id)
+            elif n.value.func.id == "read_statepoint_file":
+                fromfile.add(n.targets[0].id)
+    if not derived or not fromfile:
+        return [ctx.inc(R, f, f.node, "the two state points (from the path, from the file) are not bound to locals", construct=k)]
+    plain = []
+    other = []
+    for c in body_nodes(f):
+        if isinstance(c, ast.Compare) and len(c.ops) == 1:
+            ops = [c.left, c.comparators[0]]
+            nm = [o.id if isinstance(o, ast.Name) else None for o in ops]
+            touches = names_in(c) & (derived | fromfile)
+            if (nm[0] in derived and nm[1] in fromfile) or (nm[0] in fromfile and nm[1] in derived):
+                if isinstance(c.ops[0], (ast.Eq, ast.NotEq)):
+                    plain.append(c)
+                else:
+                    other.append(c)
+            elif (touches & derived) and (touches & fromfile):
+                other.append(c)
+    out = []
+    if other or not plain:
+        w = (other or [f.node])[0]
+        out.append(ctx.viol(R, f, w, f"the state point derived from the path and the one in the state point file are not compared as values (`{canon(w)[:70]}`): a spelling-level or "
+                            "one-directional comparison accepts {'a': '1'} against {'a': 1}, or a schema that names only some of the keys - the directory is then imported under the id "
+                            "of a state point that its own state point file contradicts", construct=k))
+    else:
+        out.append(ctx.ok(R, f, plain[0], "the two state points are compared as values (any difference is a StatepointParsingError)", construct=k))
+    return out
+
+
+RULES = [c16_a, c16_b, c16_c, c16_d, c16_e, c16_f, c16_g, c16_h, c16_i, c16_j, c16_k, c16_l, c16_m, c16_n]
